@@ -124,10 +124,10 @@ Definition validate_program (cur r : rev) (storage collateral : N) : res N :=
 
 Definition validate_payment (cur r : rev) (payment : N) : res unit :=
   do _ <- validate_std cur r;
-  do a <- csub (vr cur) payment;
-  do _ <- eguard (vr r =? a);
-  do b <- csub (mr cur) payment;          (* Currency.Sub: panics when the missed renter payout is smaller *)
-  do _ <- eguard (mr r =? b);
+  do _ <- eguard (payment <=? vr cur);     (* SubWithUnderflow: an error, not a panic (fix b3394f9) *)
+  do _ <- eguard (payment <=? mr cur);
+  do _ <- eguard (vr r =? vr cur - payment);
+  do _ <- eguard (mr r =? mr cur - payment);
   do _ <- eguard (vh r =? vh cur + payment);
   eguard (mh r =? mh cur + payment).
 
